@@ -44,8 +44,47 @@ PROGRAMS = {
     # a queue used for a second round: closed, emptied by RemoveAll (which the code re-opens), filled and closed again
     'r6': P(1, {'m': [A(11), CLOSE, CLEAR, A(12), CLOSE], 'c1': [REM, REM], 'c2': [REM]}, {'c1': ['m'], 'c2': ['m']}),
 }
+
+
+def _generated():
+    """the family of the property, enumerated: 1-3 producers adding 1-3 distinct values,
+    1-3 consumers, capacity 1-3, optional closer, optional observer, optional RemoveAll
+    caller; kept to at most 9 calls in at most 5 processes (state spaces of 10^3..10^5); a deterministic spread of
+    them is model-checked and replayed in the thorough tier"""
+    import itertools, random
+    out = []
+    for cap, np_, nc, closer, obs, clr in itertools.product((1, 2, 3), (1, 2, 3), (1, 2, 3), (True, False), (False, True), (False, True)):
+        for per in itertools.product((1, 2, 3), repeat=np_):
+            if list(per) != sorted(per, reverse=True):
+                continue                      # producers are interchangeable
+            total = sum(per)
+            rems = total + (nc if closer else 0)
+            calls = total + rems + (1 if closer else 0) + (2 if obs else 0) + (1 if clr else 0)
+            if calls > 9 or np_ + nc + closer + obs + clr > 5 or total < nc and not closer:
+                continue
+            procs, after = {}, {}
+            for i, k in enumerate(per):
+                procs['p%d' % (i + 1)] = [A(10 * (i + 1) + j + 1) for j in range(k)]
+            share = [rems // nc + (1 if j < rems % nc else 0) for j in range(nc)]
+            for j, r in enumerate(share):
+                procs['c%d' % (j + 1)] = [REM] * r
+            if closer:
+                procs['x'] = [CLOSE]
+                after['x'] = ['p%d' % (i + 1) for i in range(np_)]
+            if obs:
+                procs['s'] = [SIZE, ARRAY]
+            if clr:
+                procs['r'] = [CLEAR]
+            out.append(P(cap, procs, after))
+    random.Random(20241).shuffle(out)
+    return out
+
+
+GENERATED = _generated()
+for _i, _p in enumerate(GENERATED[:12]):
+    PROGRAMS['g%02d' % (_i + 1)] = _p
 QUICK = ['w1', 'w2', 'w3', 'b1', 'r1', 'r2', 'r3', 'r4', 'r5', 'r6']
-THOROUGH = ['w1', 'w2', 'w3', 'w4', 'w5', 'w6', 'b1', 'b2', 'r1', 'r2', 'r3', 'r4', 'r5', 'r6']
+THOROUGH = ['w1', 'w2', 'w3', 'w4', 'w5', 'w6', 'b1', 'b2', 'r1', 'r2', 'r3', 'r4', 'r5', 'r6'] + ['g%02d' % (i + 1) for i in range(12)]
 
 
 def run_programs(ctx, names, max_schedules):
@@ -62,7 +101,8 @@ def run_programs(ctx, names, max_schedules):
     for name in names:
         prog = PROGRAMS[name]
         qe._PROG_LEN = {p: len(c) for p, c in prog['procs'].items()}
-        scheds, uncovered = qe.schedules_from_edges(mcs[name]['edges'], ctx.seed, max_schedules=max_schedules)
+        cap = min(max_schedules, 600) if name.startswith('g') else max_schedules     # the enumerated family: a sample of its behaviours
+        scheds, uncovered = qe.schedules_from_edges(mcs[name]['edges'], ctx.seed, max_schedules=cap)
         res = qe.replay(ctx, name, prog, scheds)
         out[name] = {'prog': prog, 'mc': mcs[name], 'scheds': scheds, 'uncovered': uncovered, 'results': res}
     return out
@@ -224,7 +264,7 @@ def check(ctx, prop):
     t0 = time.time()
     ctx.build_harness()
     names = QUICK if ctx.quick else THOROUGH
-    progres = run_programs(ctx, names, 800 if ctx.quick else 12000)
+    progres = run_programs(ctx, names, 800 if ctx.quick else 12000)      # schedules per program at most
     ctx.notes.append('phase programs+replay %.1fs' % (time.time() - t0)); t0 = time.time()
     runs, races = stress(ctx, 150 if ctx.quick else 1500, race=False)
     ctx.notes.append('phase stress %.1fs' % (time.time() - t0)); t0 = time.time()
